@@ -125,6 +125,15 @@ def gen(rng, tier, idx):
                 groups.append(g)
         kinds = kinds[:len(groups)]
         nprocs = _expand(kinds, grid)
+    order_shuffled = False
+    if rng.random() < 0.35 and len(groups) > 1:
+        # the constructor finds the most distributed set itself: the order in which the sets are listed is free
+        perm = list(range(len(groups)))
+        rng.shuffle(perm)
+        if perm != sorted(perm):
+            groups = [groups[i] for i in perm]
+            nprocs = [nprocs[i] for i in perm]
+            order_shuffled = True
     # shape: every rank owns >= 1 point wherever a layout is distributed
     need = [1] * ndim
     for g, n in zip(groups, nprocs):
@@ -156,7 +165,7 @@ def gen(rng, tier, idx):
         walk.append([start, bool(rng.random() < 0.5)])
     sched = simworld.random_sched(rng, 0)
     sched['poison'] = rng.random() < 0.7
-    return dict(P=grid[0] * grid[1], grid=grid, family=family, two2d=bool(locals().get('two2d')), groups=[[list(map(list, g.items()))][0] for g in groups],
+    return dict(P=grid[0] * grid[1], grid=grid, family=family, two2d=bool(locals().get('two2d')), order_shuffled=order_shuffled, groups=[[list(map(list, g.items()))][0] for g in groups],
                 nprocs=nprocs, shape=shape, start=start, walk=walk,
                 dtype=rng.choice(['float64', 'complex128']), sched=sched)
 
@@ -169,8 +178,8 @@ def build_swapper(comm, case):
     try:
         return LayoutSwapper(comm, layouts, nprocs, eta, case['start'])
     except Exception as e:   # noqa
-        if case['family'] == 'driver':
-            raise
+        if case['family'] == 'driver' and not case.get('order_shuffled'):
+            raise        # the driver's own groupings, listed as the driver lists them, must be accepted
         raise Skip('%s: %s' % (type(e).__name__, e))
 
 
@@ -259,6 +268,8 @@ def run(case, tape=None):
         if 1 in case['grid'] and P > 1:
             probes['grid_extent_1'] = 1
         probes['family_' + case['family']] = 1
+        if case.get('order_shuffled'):
+            probes['sets_listed_in_another_order'] = 1
         if case.get('two2d'):
             probes['several_2d_groups'] = 1
         return dict(nontrivial=(P > 1 and (ng + na) > 0), probes=probes)
